@@ -47,6 +47,12 @@ CLAIMED = {
             "as a defined algebraic number); non-negativity, optimal<=fixed and the split inequality for L2 (nlsat) "
             "and for the univariate Gaussian cost with explicitly instantiated log lemmas (with a vacuity twin)",
             "4.C06"),
+    "C13": ("evaluate of eight scorers on a cut row of symbolic integers in [-2, n+2]^k: the scorer's own validation "
+            "forks on them, indexing case-splits all feasible values through NumPy's real indexing; z3 decides on "
+            "every returning path that the path condition implies a valid cut, on every raising path that the "
+            "exception is ValueError and the cut invalid, and (L2 family) that the value is the definition; plus "
+            "concrete malformed arrays",
+            "4.C13"),
 }
 PENDING = {}
 TITLES = {}
